@@ -34,7 +34,53 @@ sys.exit(0)
 '''
 
 
+POW = r'''
+import sys, os, tempfile, importlib.util
+import numpy as np, onnx
+from onnx import helper, TensorProto, numpy_helper
+from onnx.reference import ReferenceEvaluator
+import onnxscript
+c = helper.make_node("Constant", [], ["c"], value=numpy_helper.from_array(np.array(-2.0, dtype=np.float32), "c"))
+g = helper.make_graph([c, helper.make_node("Pow", ["c", "x"], ["y"])], "g", [helper.make_tensor_value_info("x", TensorProto.FLOAT, [2])],
+                      [helper.make_tensor_value_info("y", TensorProto.FLOAT, [2])])
+m = helper.make_model(g, opset_imports=[helper.make_opsetid("", 18)], ir_version=9)
+onnx.checker.check_model(m)
+code = onnxscript.proto2python(m, use_operators=True, inline_const=True)
+line = [l for l in code.splitlines() if "**" in l]
+d = tempfile.mkdtemp(); path = os.path.join(d, "pow_case.py"); open(path, "w").write(code)
+spec = importlib.util.spec_from_file_location("pow_case", path); mod = importlib.util.module_from_spec(spec); sys.modules["pow_case"] = mod; spec.loader.exec_module(mod)
+fn = [v for v in vars(mod).values() if isinstance(v, onnxscript.OnnxFunction)][-1]
+x = np.array([2.0, 3.0], dtype=np.float32)
+a = ReferenceEvaluator(m).run(None, {"x": x})[0]
+b = ReferenceEvaluator(fn.to_model_proto()).run(None, {"x": x})[0]
+if not np.allclose(a, b):
+    print(f"Pow(-2.0, x) exported as {line[0].strip()!r}: original {a.tolist()} round-tripped {b.tolist()}")
+    sys.exit(1)
+sys.exit(0)
+'''
+
+OPS_ONLY = r'''
+import sys, os, tempfile, importlib.util
+import numpy as np, onnx, onnxscript
+from onnx import helper, TensorProto
+g = helper.make_graph([helper.make_node("Add", ["x", "x"], ["y"])], "g", [helper.make_tensor_value_info("x", TensorProto.FLOAT, [2])], [helper.make_tensor_value_info("y", TensorProto.FLOAT, [2])])
+m = helper.make_model(g, opset_imports=[helper.make_opsetid("", 18)], ir_version=9)
+code = onnxscript.proto2python(m, use_operators=True)
+d = tempfile.mkdtemp(); path = os.path.join(d, "ops_only_case.py"); open(path, "w").write(code)
+spec = importlib.util.spec_from_file_location("ops_only_case", path); mod = importlib.util.module_from_spec(spec); sys.modules["ops_only_case"] = mod
+try:
+    spec.loader.exec_module(mod)
+except Exception as e:
+    print("the script exported with use_operators=True for y = Add(x, x) does not compile:", type(e).__name__, str(e)[:160])
+    sys.exit(1)
+sys.exit(0)
+'''
+
 def replay(ob):
+    if "operator_text.parses" in ob["name"]:
+        return POW
+    if "decorator.names_the_imported" in ob["name"]:
+        return OPS_ONLY
     if "distinct_names_stay_distinct" in ob["name"]:
         return COLLIDE
     case = (ob.get("model") or {}).get("case")
